@@ -60,7 +60,7 @@ func runC01(ctx *Ctx) {
 	}
 	r.Sample("default: imsi 001010000000001, README credentials, gNB 000102/24 'open5gs'; AMF: RAND 2355.., SQN 16f3b3f70fc2, AMF 8000, AMF-UE-NGAP-ID 1, ngKSI 0, no optional IEs; 1 UE -> NGSetup, InitialUE(RegistrationRequest), AuthenticationResponse, SecurityModeComplete, ICS response, RegistrationComplete")
 	r.Sample("deviation: AMF-UE-NGAP-ID=8 (2^40-2), registered-UEs=1 (two UEs)")
-	r.Rule = fmt.Sprintf("real emulator process (stgutgmain -t, build tag verif, no-op Sleep) x reference AMF model over a socketpair: every vector with <=%d deviations from the default over configuration (11 IMSI/PLMN shapes incl. 12/14 digits with 2- and 3-digit MNC and MSINs whose successor needs a carry through 9s, 4 K/OP values, OPc / OP-only / OPc-without-OP, gNB id length 22..32 (all) x 2 contents, 3 names) x AMF choices (RAND 4, SQN 5, AMF field 3, AMF-UE-NGAP-ID 9 values up to 2^40-2, ngKSI 0..6, 6 optional IEs in DownlinkNASTransport, 7 in InitialContextSetupRequest, 3 NGSetupResponse shapes, IMEISV request, RINMR, how RAND and SQN vary from UE to UE {fresh RAND, same RAND with SQN+1, both, neither}) x {1,2} UEs; "+
+	r.Rule = fmt.Sprintf("real emulator process (stgutgmain -t, build tag verif, no-op Sleep) x reference AMF model over a socketpair: every vector with <=%d deviations from the default over configuration (11 IMSI/PLMN shapes incl. 12/14 digits with 2- and 3-digit MNC and MSINs whose successor needs a carry through 9s, 4 K/OP values, OPc / OP-only / OPc-without-OP, gNB id length 22..32 (all) x 4 contents (incl. octets that are white space as text at both ends), 5 names (incl. every punctuation mark of PrintableString and blanks at the ends)) x AMF choices (RAND 4, SQN 5, AMF field 3, AMF-UE-NGAP-ID 9 values up to 2^40-2, ngKSI 0..6, 6 optional IEs in DownlinkNASTransport, 7 in InitialContextSetupRequest, 3 NGSetupResponse shapes, IMEISV request, RINMR, how RAND and SQN vary from UE to UE {fresh RAND, same RAND with SQN+1, both, neither}) x {1,2} UEs; "+
 		"oracle = the model accepts every uplink message in its state (NGAP decodes by the independent decoder as the expected message, mandatory IEs/criticalities, assigned ids, PLMN, SUCI -> provisioned SUPI, RES* = XRES*, header types, MAC under the network's keys, COUNT = previous+1 from 0), the process exits 0 with the banner, every UE ends REGISTERED; states/transitions = distinct abstract model states/labelled transitions visited; every model trace is executed against the implementation", bound)
 	r.Assume("reference AMF follows the Open5GS message flow (Configuration Update Command after Registration Complete)", "time: Sleep is a no-op in the emulator build; the reference AMF is reactive and sequential, so message sequences do not depend on timing (checked by the real-time replays of C19 thorough)",
 		"K/RAND values outside the alphabets are not enumerated (C05 widens them at function level)")
